@@ -1,0 +1,132 @@
+//go:build verif
+
+package server
+
+// Contracts for the deductive verifier in /verif (vcgo). Comment-only.
+
+// ---- regions of server state (effect inference, properties C03 C07 C15 C18) ----
+//@ region Keyspace: server.Server.cols, collection.Collection.*
+//@ region Hooks: server.Server.hooks, server.Server.hooksOut, server.Server.hookTree, server.Server.hookCross, server.Server.hookExpires, server.Server.groupHooks, server.Server.groupObjects
+//@ region Log: server.Server.aof, server.Server.aofbuf, server.Server.aofsz, server.Server.shrinking, server.Server.shrinklog, server.Server.qdb, server.Server.qidx
+//@ region Config: server.Config.*, server.Server.config
+//@ region Follow: server.Server.followc, server.Server.fcupflags, server.Server.faofsz, server.Server.aofconnM
+//@ region Scripts: server.Server.luascripts, server.lScriptMap.*
+
+// Script callbacks (tile38.call / pcall) re-enter the dispatcher through luaTile38Call, which enforces its own gate
+// on the EVAL_CMD global; its effects are therefore not attributed to whoever runs a Lua script (EVAL*, WHEREEVAL).
+//@ func Server.luaTile38Call
+//@   effects-boundary
+
+// ---- the server lock as seen by the current goroutine: 0 not held, 1 shared, 2 exclusive ----
+//@ ghost var lock int
+// pending: a data-modifying handler has reported success (err == nil, updated) and its command is not yet in the log buffer
+//@ ghost var pending bool
+
+//@ func rwlocker.Lock(l)
+//@   assumed
+//@   requires lock == 0
+//@   modifies lock
+//@   ensures lock == 2
+//@ func rwlocker.LockLowPriority(l)
+//@   assumed
+//@   requires lock == 0
+//@   modifies lock
+//@   ensures lock == 2
+//@ func rwlocker.Unlock(l)
+//@   assumed
+//@   requires [held] lock == 2
+//@   requires [logged-before-unlock] !pending
+//@   modifies lock
+//@   ensures lock == 0
+//@ func rwlocker.RLock(l)
+//@   assumed
+//@   requires lock == 0
+//@   modifies lock
+//@   ensures lock == 1
+//@ func rwlocker.RUnlock(l)
+//@   assumed
+//@   requires [held] lock == 1
+//@   requires [logged-before-unlock] !pending
+//@   modifies lock
+//@   ensures lock == 0
+
+// ---- configuration getters (proved) and the gates they feed ----
+//@ func Config.followHost
+//@   requires config != nil
+//@   modifies nothing
+//@   ensures result == config._followHost
+//@ func Config.readOnly
+//@   requires config != nil
+//@   modifies nothing
+//@   ensures result == config._readOnly
+//@ func Config.requirePass
+//@   requires config != nil
+//@   modifies nothing
+//@   ensures result == config._requirePass
+//@ func Server.caughtUpOnce
+//@   requires s != nil
+//@   modifies nothing
+//@   ensures result == (bitand(s.fcupflags, 1) == 1)
+
+//@ ghost macro gateLeaderWritable(s) = s.config._followHost == "" && !s.config._readOnly
+//@ ghost macro gateCaughtUp(s) = s.config._followHost != "" ==> bitand(s.fcupflags, 1) == 1
+
+//@ func Message.Command
+//@   requires msg != nil && len(msg.Args) > 0 && (msg._command == "" || msg._command == lower(msg.Args[0]))
+//@   modifies msg._command
+//@   ensures result == lower(msg.Args[0]) && msg._command == result
+
+//@ func Server.writeAOF
+//@   assumed
+//@   requires [A1.log] lock == 2
+//@   modifies pending
+//@   ensures (d == nil || d.updated) ==> !pending
+//@   ensures !(d == nil || d.updated) ==> pending == old(pending)
+
+//@ func Server.command
+//@   inline
+//@ func Server.handleInputCommand
+//@   lockcheck
+//@   requires s != nil && s.config != nil && client != nil && msg != nil && len(msg.Args) > 0 && msg._command == ""
+//@   requires lock == 0 && !pending
+//@   split cmd @Message.Command: [set] result == "set" | [del] result == "del" | [drop] result == "drop" | [fset] result == "fset" | [flushdb] result == "flushdb" | [setchan] result == "setchan" | [pdelchan] result == "pdelchan" | [delchan] result == "delchan" | [sethook] result == "sethook" | [pdelhook] result == "pdelhook" | [delhook] result == "delhook" | [expire] result == "expire" | [persist] result == "persist" | [jset] result == "jset" | [pdel] result == "pdel" | [rename] result == "rename" | [renamenx] result == "renamenx" | [eval] result == "eval" | [evalsha] result == "evalsha" | [get] result == "get" | [keys] result == "keys" | [scan] result == "scan" | [nearby] result == "nearby" | [within] result == "within" | [intersects] result == "intersects" | [hooks] result == "hooks" | [chans] result == "chans" | [search] result == "search" | [ttl] result == "ttl" | [bounds] result == "bounds" | [server] result == "server" | [info] result == "info" | [type] result == "type" | [jget] result == "jget" | [evalro] result == "evalro" | [evalrosha] result == "evalrosha" | [role] result == "role" | [fget] result == "fget" | [exists] result == "exists" | [fexists] result == "fexists" | [healthz] result == "healthz" | [follow] result == "follow" | [slaveof] result == "slaveof" | [replconf] result == "replconf" | [readonly] result == "readonly" | [config] result == "config" | [output] result == "output" | [echo] result == "echo" | [massinsert] result == "massinsert" | [sleep] result == "sleep" | [shutdown] result == "shutdown" | [aofshrink] result == "aofshrink" | [client] result == "client" | [evalna] result == "evalna" | [evalnasha] result == "evalnasha" | [subscribe] result == "subscribe" | [psubscribe] result == "psubscribe" | [publish] result == "publish" | [monitor] result == "monitor" | [jdel] result == "jdel" | [stats] result == "stats" | [test] result == "test" | [aof] result == "aof" | [aofmd5] result == "aofmd5" | [gc] result == "gc" | [script] result == "script" | [ping] result == "ping" | [auth] result == "auth" | [hello] result == "hello" | [command] result == "command" | [OTHER] result != "set" && result != "del" && result != "drop" && result != "fset" && result != "flushdb" && result != "setchan" && result != "pdelchan" && result != "delchan" && result != "sethook" && result != "pdelhook" && result != "delhook" && result != "expire" && result != "persist" && result != "jset" && result != "pdel" && result != "rename" && result != "renamenx" && result != "eval" && result != "evalsha" && result != "get" && result != "keys" && result != "scan" && result != "nearby" && result != "within" && result != "intersects" && result != "hooks" && result != "chans" && result != "search" && result != "ttl" && result != "bounds" && result != "server" && result != "info" && result != "type" && result != "jget" && result != "evalro" && result != "evalrosha" && result != "role" && result != "fget" && result != "exists" && result != "fexists" && result != "healthz" && result != "follow" && result != "slaveof" && result != "replconf" && result != "readonly" && result != "config" && result != "output" && result != "echo" && result != "massinsert" && result != "sleep" && result != "shutdown" && result != "aofshrink" && result != "client" && result != "evalna" && result != "evalnasha" && result != "subscribe" && result != "psubscribe" && result != "publish" && result != "monitor" && result != "jdel" && result != "stats" && result != "test" && result != "aof" && result != "aofmd5" && result != "gc" && result != "script" && result != "ping" && result != "auth" && result != "hello" && result != "command" && result != "timeout" | [timeout.set] result == "timeout" ;; @rewriteTimeoutMsg lower(msg.Args[0]) == "set" | [timeout.del] result == "timeout" ;; @rewriteTimeoutMsg lower(msg.Args[0]) == "del" | [timeout.drop] result == "timeout" ;; @rewriteTimeoutMsg lower(msg.Args[0]) == "drop" | [timeout.fset] result == "timeout" ;; @rewriteTimeoutMsg lower(msg.Args[0]) == "fset" | [timeout.flushdb] result == "timeout" ;; @rewriteTimeoutMsg lower(msg.Args[0]) == "flushdb" | [timeout.setchan] result == "timeout" ;; @rewriteTimeoutMsg lower(msg.Args[0]) == "setchan" | [timeout.pdelchan] result == "timeout" ;; @rewriteTimeoutMsg lower(msg.Args[0]) == "pdelchan" | [timeout.delchan] result == "timeout" ;; @rewriteTimeoutMsg lower(msg.Args[0]) == "delchan" | [timeout.sethook] result == "timeout" ;; @rewriteTimeoutMsg lower(msg.Args[0]) == "sethook" | [timeout.pdelhook] result == "timeout" ;; @rewriteTimeoutMsg lower(msg.Args[0]) == "pdelhook" | [timeout.delhook] result == "timeout" ;; @rewriteTimeoutMsg lower(msg.Args[0]) == "delhook" | [timeout.expire] result == "timeout" ;; @rewriteTimeoutMsg lower(msg.Args[0]) == "expire" | [timeout.persist] result == "timeout" ;; @rewriteTimeoutMsg lower(msg.Args[0]) == "persist" | [timeout.jset] result == "timeout" ;; @rewriteTimeoutMsg lower(msg.Args[0]) == "jset" | [timeout.pdel] result == "timeout" ;; @rewriteTimeoutMsg lower(msg.Args[0]) == "pdel" | [timeout.rename] result == "timeout" ;; @rewriteTimeoutMsg lower(msg.Args[0]) == "rename" | [timeout.renamenx] result == "timeout" ;; @rewriteTimeoutMsg lower(msg.Args[0]) == "renamenx" | [timeout.eval] result == "timeout" ;; @rewriteTimeoutMsg lower(msg.Args[0]) == "eval" | [timeout.evalsha] result == "timeout" ;; @rewriteTimeoutMsg lower(msg.Args[0]) == "evalsha" | [timeout.get] result == "timeout" ;; @rewriteTimeoutMsg lower(msg.Args[0]) == "get" | [timeout.keys] result == "timeout" ;; @rewriteTimeoutMsg lower(msg.Args[0]) == "keys" | [timeout.scan] result == "timeout" ;; @rewriteTimeoutMsg lower(msg.Args[0]) == "scan" | [timeout.nearby] result == "timeout" ;; @rewriteTimeoutMsg lower(msg.Args[0]) == "nearby" | [timeout.within] result == "timeout" ;; @rewriteTimeoutMsg lower(msg.Args[0]) == "within" | [timeout.intersects] result == "timeout" ;; @rewriteTimeoutMsg lower(msg.Args[0]) == "intersects" | [timeout.hooks] result == "timeout" ;; @rewriteTimeoutMsg lower(msg.Args[0]) == "hooks" | [timeout.chans] result == "timeout" ;; @rewriteTimeoutMsg lower(msg.Args[0]) == "chans" | [timeout.search] result == "timeout" ;; @rewriteTimeoutMsg lower(msg.Args[0]) == "search" | [timeout.ttl] result == "timeout" ;; @rewriteTimeoutMsg lower(msg.Args[0]) == "ttl" | [timeout.bounds] result == "timeout" ;; @rewriteTimeoutMsg lower(msg.Args[0]) == "bounds" | [timeout.server] result == "timeout" ;; @rewriteTimeoutMsg lower(msg.Args[0]) == "server" | [timeout.info] result == "timeout" ;; @rewriteTimeoutMsg lower(msg.Args[0]) == "info" | [timeout.type] result == "timeout" ;; @rewriteTimeoutMsg lower(msg.Args[0]) == "type" | [timeout.jget] result == "timeout" ;; @rewriteTimeoutMsg lower(msg.Args[0]) == "jget" | [timeout.evalro] result == "timeout" ;; @rewriteTimeoutMsg lower(msg.Args[0]) == "evalro" | [timeout.evalrosha] result == "timeout" ;; @rewriteTimeoutMsg lower(msg.Args[0]) == "evalrosha" | [timeout.role] result == "timeout" ;; @rewriteTimeoutMsg lower(msg.Args[0]) == "role" | [timeout.fget] result == "timeout" ;; @rewriteTimeoutMsg lower(msg.Args[0]) == "fget" | [timeout.exists] result == "timeout" ;; @rewriteTimeoutMsg lower(msg.Args[0]) == "exists" | [timeout.fexists] result == "timeout" ;; @rewriteTimeoutMsg lower(msg.Args[0]) == "fexists" | [timeout.healthz] result == "timeout" ;; @rewriteTimeoutMsg lower(msg.Args[0]) == "healthz" | [timeout.follow] result == "timeout" ;; @rewriteTimeoutMsg lower(msg.Args[0]) == "follow" | [timeout.slaveof] result == "timeout" ;; @rewriteTimeoutMsg lower(msg.Args[0]) == "slaveof" | [timeout.replconf] result == "timeout" ;; @rewriteTimeoutMsg lower(msg.Args[0]) == "replconf" | [timeout.readonly] result == "timeout" ;; @rewriteTimeoutMsg lower(msg.Args[0]) == "readonly" | [timeout.config] result == "timeout" ;; @rewriteTimeoutMsg lower(msg.Args[0]) == "config" | [timeout.output] result == "timeout" ;; @rewriteTimeoutMsg lower(msg.Args[0]) == "output" | [timeout.echo] result == "timeout" ;; @rewriteTimeoutMsg lower(msg.Args[0]) == "echo" | [timeout.massinsert] result == "timeout" ;; @rewriteTimeoutMsg lower(msg.Args[0]) == "massinsert" | [timeout.sleep] result == "timeout" ;; @rewriteTimeoutMsg lower(msg.Args[0]) == "sleep" | [timeout.shutdown] result == "timeout" ;; @rewriteTimeoutMsg lower(msg.Args[0]) == "shutdown" | [timeout.aofshrink] result == "timeout" ;; @rewriteTimeoutMsg lower(msg.Args[0]) == "aofshrink" | [timeout.client] result == "timeout" ;; @rewriteTimeoutMsg lower(msg.Args[0]) == "client" | [timeout.evalna] result == "timeout" ;; @rewriteTimeoutMsg lower(msg.Args[0]) == "evalna" | [timeout.evalnasha] result == "timeout" ;; @rewriteTimeoutMsg lower(msg.Args[0]) == "evalnasha" | [timeout.subscribe] result == "timeout" ;; @rewriteTimeoutMsg lower(msg.Args[0]) == "subscribe" | [timeout.psubscribe] result == "timeout" ;; @rewriteTimeoutMsg lower(msg.Args[0]) == "psubscribe" | [timeout.publish] result == "timeout" ;; @rewriteTimeoutMsg lower(msg.Args[0]) == "publish" | [timeout.monitor] result == "timeout" ;; @rewriteTimeoutMsg lower(msg.Args[0]) == "monitor" | [timeout.jdel] result == "timeout" ;; @rewriteTimeoutMsg lower(msg.Args[0]) == "jdel" | [timeout.stats] result == "timeout" ;; @rewriteTimeoutMsg lower(msg.Args[0]) == "stats" | [timeout.test] result == "timeout" ;; @rewriteTimeoutMsg lower(msg.Args[0]) == "test" | [timeout.aof] result == "timeout" ;; @rewriteTimeoutMsg lower(msg.Args[0]) == "aof" | [timeout.aofmd5] result == "timeout" ;; @rewriteTimeoutMsg lower(msg.Args[0]) == "aofmd5" | [timeout.gc] result == "timeout" ;; @rewriteTimeoutMsg lower(msg.Args[0]) == "gc" | [timeout.script] result == "timeout" ;; @rewriteTimeoutMsg lower(msg.Args[0]) == "script" | [timeout.ping] result == "timeout" ;; @rewriteTimeoutMsg lower(msg.Args[0]) == "ping" | [timeout.auth] result == "timeout" ;; @rewriteTimeoutMsg lower(msg.Args[0]) == "auth" | [timeout.hello] result == "timeout" ;; @rewriteTimeoutMsg lower(msg.Args[0]) == "hello" | [timeout.command] result == "timeout" ;; @rewriteTimeoutMsg lower(msg.Args[0]) == "command" | [timeout.OTHER] result == "timeout" ;; @rewriteTimeoutMsg lower(msg.Args[0]) != "set" && lower(msg.Args[0]) != "del" && lower(msg.Args[0]) != "drop" && lower(msg.Args[0]) != "fset" && lower(msg.Args[0]) != "flushdb" && lower(msg.Args[0]) != "setchan" && lower(msg.Args[0]) != "pdelchan" && lower(msg.Args[0]) != "delchan" && lower(msg.Args[0]) != "sethook" && lower(msg.Args[0]) != "pdelhook" && lower(msg.Args[0]) != "delhook" && lower(msg.Args[0]) != "expire" && lower(msg.Args[0]) != "persist" && lower(msg.Args[0]) != "jset" && lower(msg.Args[0]) != "pdel" && lower(msg.Args[0]) != "rename" && lower(msg.Args[0]) != "renamenx" && lower(msg.Args[0]) != "eval" && lower(msg.Args[0]) != "evalsha" && lower(msg.Args[0]) != "get" && lower(msg.Args[0]) != "keys" && lower(msg.Args[0]) != "scan" && lower(msg.Args[0]) != "nearby" && lower(msg.Args[0]) != "within" && lower(msg.Args[0]) != "intersects" && lower(msg.Args[0]) != "hooks" && lower(msg.Args[0]) != "chans" && lower(msg.Args[0]) != "search" && lower(msg.Args[0]) != "ttl" && lower(msg.Args[0]) != "bounds" && lower(msg.Args[0]) != "server" && lower(msg.Args[0]) != "info" && lower(msg.Args[0]) != "type" && lower(msg.Args[0]) != "jget" && lower(msg.Args[0]) != "evalro" && lower(msg.Args[0]) != "evalrosha" && lower(msg.Args[0]) != "role" && lower(msg.Args[0]) != "fget" && lower(msg.Args[0]) != "exists" && lower(msg.Args[0]) != "fexists" && lower(msg.Args[0]) != "healthz" && lower(msg.Args[0]) != "follow" && lower(msg.Args[0]) != "slaveof" && lower(msg.Args[0]) != "replconf" && lower(msg.Args[0]) != "readonly" && lower(msg.Args[0]) != "config" && lower(msg.Args[0]) != "output" && lower(msg.Args[0]) != "echo" && lower(msg.Args[0]) != "massinsert" && lower(msg.Args[0]) != "sleep" && lower(msg.Args[0]) != "shutdown" && lower(msg.Args[0]) != "aofshrink" && lower(msg.Args[0]) != "client" && lower(msg.Args[0]) != "evalna" && lower(msg.Args[0]) != "evalnasha" && lower(msg.Args[0]) != "subscribe" && lower(msg.Args[0]) != "psubscribe" && lower(msg.Args[0]) != "publish" && lower(msg.Args[0]) != "monitor" && lower(msg.Args[0]) != "jdel" && lower(msg.Args[0]) != "stats" && lower(msg.Args[0]) != "test" && lower(msg.Args[0]) != "aof" && lower(msg.Args[0]) != "aofmd5" && lower(msg.Args[0]) != "gc" && lower(msg.Args[0]) != "script" && lower(msg.Args[0]) != "ping" && lower(msg.Args[0]) != "auth" && lower(msg.Args[0]) != "hello" && lower(msg.Args[0]) != "command"
+//@   ensures [lock-balance] lock == 0
+//@   ensures [logged] !pending
+
+//@ func mvtFilterHTTPArgs
+//@   requires msg != nil && len(msg.Args) > 0
+//@   modifies msg._command, msg.Args
+//@   ensures msg._command == "" || msg._command == old(msg._command)
+//@   ensures len(msg.Args) > 0
+//@   ensures !modified ==> msg.Args == old(msg.Args)
+
+//@ func rewriteTimeoutMsg
+//@   requires msg != nil && len(msg.Args) > 0
+//@   modifies msg.Args, msg._command, msg.Deadline
+//@   ensures err == nil ==> msg._command == "" && len(msg.Args) > 0 && msg.Deadline != nil
+//@   ensures err != nil ==> msg.Args == old(msg.Args) && msg._command == old(msg._command) && msg.Deadline == old(msg.Deadline)
+
+// FOLLOW releases the server lock while it dials the leader and must hold it again on every return
+// (its caller's deferred Unlock runs next).
+//@ func Server.cmdFollow
+//@   frame-by-effects
+//@   requires s != nil && s.config != nil && lock == 2 && !pending
+//@   modifies lock
+//@   ensures [lock-balance] lock == 2
+
+// MASSINSERT (developer mode only, refused unless the server runs with --dev) takes the server lock itself around
+// every generated command. Its body is not under contract (assumed): it is a developer tool.
+//@ func Server.cmdMassInsert
+//@   assumed
+//@   locks-internally
+//@   frame-by-effects
+//@   requires lock == 0
+//@   modifies lock, pending
+//@   ensures lock == 0 && !pending
+
+//@ func errInvalidArgument
+//@   modifies nothing
+//@   ensures result != nil
+//@ func errTimeoutOnCmd
+//@   modifies nothing
+//@   ensures result != nil
